@@ -1,5 +1,5 @@
 (* ImpFactsMd.v - the metadata list of src/metadata.c from the source: creation, freezing, counting, lookup by name. *)
-From Sbdf Require Import ImpCall Gen.Prog Gen.Consts Base BaseFacts ImpFacts ImpFacts7 ImpFactsFrame ImpFactsCmp ImpFactsHeap ImpFactsRead ImpFactsCells.
+From Sbdf Require Import ImpCall Gen.Prog Gen.Consts Base BaseFacts ImpBase ImpFactsCells.
 From Coq Require Import ZifyBool.
 Local Open Scope Z_scope.
 Ltac Zify.zify_post_hook ::= Z.div_mod_to_equations.
